@@ -41,13 +41,13 @@ PROPS = {
     parts=[dict(engine="reindex", harness_prop="C05", check_targets=["Check/CheckReidx.vo"], per_shard=300, share=0.5),
            dict(engine="lowering", harness_prop="C05low", check_targets=["Check/CheckLow.vo"], per_shard=400, share=0.5)],
     check_targets=["Check/CheckReidx.vo", "Check/CheckLow.vo"], proof_targets=["Props/C05.vo"],
-    theorems=[("C05", "C05_second_resolution_is_identity"), ("C05", "C05_partial_identity_maps_leave_references")],
+    theorems=[("C05", "C05_second_resolution_is_identity"), ("C05", "C05_first_resolution_clears_every_special_list"), ("C05", "C05_second_resolution_is_identity_after_the_first"), ("C05", "C05_partial_identity_maps_leave_references")],
     quick=dict(n=2400), thorough=dict(n=40000),
     rule="edit histories of the re-indexing engine and instrumentation plans of the lowering engine (all modes, function entry/exit, all API paths), each followed by two consecutive encode() calls "
          "whose bytes are compared; non-trivial = history or plan non-empty",
-    level_text="Partial proof: the second resolution pass is the identity on a resolved body (all bodies); identity id maps leave every reference unchanged. Whether the bytes of two consecutive encodings are equal "
-               "is observed on every sampled history / plan; known classes D01 (id maps re-applied to already rewritten references and start/init expressions) and D31 (special injections inside a region removed by "
-               "block-alt are left unresolved by the first encode).",
+    level_text="Partial proof: the resolution pass of the first encode leaves no special-mode list behind, for every plan over all seven modes (also with special probes inside regions the same plan removes: "
+               "the former defect D31 is repaired by a fix: commit, C05_former_D31_witness_holds), and the second resolution pass is the identity on such a body (all bodies); identity id maps leave every reference unchanged. "
+               "Whether the bytes of two consecutive encodings are equal is observed on every sampled history / plan; known class D01 (id maps re-applied to already rewritten references and start/init expressions).",
     level_note=NOTE, trusted_base=TB,
     technique="Coq lemmas (idempotence of the resolution pass, identity maps) + byte comparison of two real encodings + known-class triage in Coq",
     design_ref="5/C05", modelled="resolve_special_instrumentation, id maps", assumptions=[]),
